@@ -174,6 +174,13 @@ type c01World struct {
 	conc *c01Conc
 	// atQuiescence: the oracle runs at the end of a concurrent batch (fingerprints get the suffix "@conc")
 	atQuiescence bool
+	// scale: the manager was built with min-quota scaling on (setScaleMinQuotaEnabled(true) before any quota exists, as the
+	// plugin does by default: ElasticQuotaArgs.EnableMinQuotaScale); RefreshRuntime then lowers CalculateInfo.AutoScaleMin
+	// below the declared min when the siblings' summed min exceeds what their parent can hand out.  The property's request
+	// floor of a non-lending group is the DECLARED min, so nothing the oracle / the model expect depends on this flag.
+	scale bool
+	// the siblings created by scaleScenario (the groups whose summed min the cluster total is moved around)
+	scaleSibs []int
 }
 
 type c01Conc struct {
@@ -475,6 +482,9 @@ func (w *c01World) freshCompare(o *c01Obs) {
 		return
 	}
 	fresh := NewGroupQuotaManager("tree1", false, nil, nil)
+	if w.scale {
+		fresh.setScaleMinQuotaEnabled(true) // same configuration as the live manager
+	}
 	fresh.UpdateClusterTotalResource(c01RL(w.total))
 	var order []int
 	queue := []int{c01Root}
@@ -541,6 +551,34 @@ func (w *c01World) after(panicked bool) {
 	o := c01Observe(w.gqm)
 	o.emit(w.h, w.modelStrict)
 	w.oracle(o)
+	if w.scale {
+		w.scaleTags()
+	}
+}
+
+// scaleTags (coverage only, nothing observed): is there a non-lending group whose AutoScaleMin is currently below its
+// declared min, and is its request floor active (childRequest below the declared min) in that dimension?
+func (w *c01World) scaleTags() {
+	down, active := false, false
+	for _, s := range w.gqm.GetQuotaSummaries(false) {
+		if s.AllowLentResource {
+			continue
+		}
+		for k := 0; k < 2; k++ {
+			if c01Val(s.AutoScaleMin, k) < c01Val(s.Min, k) {
+				down = true
+				if c01Val(s.ChildRequest, k) < c01Val(s.Min, k) {
+					active = true
+				}
+			}
+		}
+	}
+	if down {
+		w.h.Tag("scale:nonlending-min-scaled-down")
+	}
+	if active {
+		w.h.Tag("scale:floor-active-under-scaled-min")
+	}
 }
 
 // ---------- operations ----------
@@ -933,6 +971,135 @@ func (w *c01World) step(maxQ, maxP int) {
 	}
 }
 
+// ---------- min-quota scaling (AutoScaleMin) ----------
+
+func (w *c01World) opTotal(d [2]int64) {
+	w.h.Op("total %d %d", d[0], d[1])
+	w.h.Tag("op:node")
+	w.total[0] += d[0]
+	w.total[1] += d[1]
+	w.after(w.h.Guard(func() { w.gqm.UpdateClusterTotalResource(c01RL(d)) }))
+}
+
+func (w *c01World) opRefresh(n int) {
+	w.h.Op("refresh %d", n)
+	w.h.Tag("op:refresh")
+	w.after(w.h.Guard(func() { w.gqm.RefreshRuntime(c01QName(n)) }))
+}
+
+// sumMin = the summed declared min of the (still existing) scenario siblings
+func (w *c01World) sumMin() (sum [2]int64, sibs []int) {
+	for _, n := range w.scaleSibs {
+		if sp := w.specs[n]; sp != nil {
+			sibs = append(sibs, n)
+			sum[0] += sp.min[0]
+			sum[1] += sp.min[1]
+		}
+	}
+	return
+}
+
+// totalTo moves the cluster total to num/den of the siblings' summed min in the dimensions picked by mask (bit k),
+// as one node add / remove (UpdateClusterTotalResource with the difference).
+func (w *c01World) totalTo(num, den int64, mask int) {
+	sum, _ := w.sumMin()
+	var d [2]int64
+	for k := 0; k < 2; k++ {
+		if mask&(1<<k) != 0 {
+			t := sum[k] * num / den
+			if k == 0 {
+				t -= t % 250
+			}
+			d[k] = t - w.total[k]
+		}
+	}
+	w.opTotal(d)
+}
+
+// scaleScenario (scale cases only): 2-3 siblings with min > 0, most of them non-lending, below the root or below a fresh
+// parent group; the cluster total first covers their summed min (two nodes), then a node goes and it does not any more;
+// RefreshRuntime of the siblings (what PreFilter / the status controller do) scales AutoScaleMin down; then pod events in
+// that subtree.  The rest of the history goes on at random (with some more total / refresh operations, scaleNudge).
+func (w *c01World) scaleScenario() {
+	r := w.r
+	w.h.Tag("scale:scenario")
+	par := c01Root
+	if r.Chance(1, 2) {
+		sp := &c01Spec{name: w.nextQ, parent: c01Root, isParent: true, lend: r.Chance(1, 2)}
+		w.nextQ++
+		for k := 0; k < 2; k++ {
+			sp.max[k] = w.genVal(k, 24) + w.genVal(k, 24)
+			sp.min[k] = w.genVal(k, 10)
+			if sp.min[k] > sp.max[k] {
+				sp.min[k] = sp.max[k]
+			}
+		}
+		w.opQuota(sp)
+		par = sp.name
+		w.h.Tag("scale:below-parent-group")
+	}
+	for i, n := 0, r.Range(2, 3); i < n; i++ {
+		sp := &c01Spec{name: w.nextQ, parent: par, isParent: r.Chance(1, 4), lend: r.Chance(1, 4)}
+		w.nextQ++
+		for k := 0; k < 2; k++ {
+			sp.min[k] = w.genVal(k, 9) + w.genVal(k, 1) // mostly > 0
+			if sp.min[k] == 0 && !r.Chance(1, 6) {
+				sp.min[k] = [2]int64{1000, 1 << 29}[k]
+			}
+			sp.max[k] = sp.min[k] + w.genVal(k, 14)
+		}
+		w.opQuota(sp)
+		w.scaleSibs = append(w.scaleSibs, sp.name)
+	}
+	_, sibs := w.sumMin()
+	w.totalTo(int64(r.Range(4, 8)), 4, 3) // total >= summed min
+	if r.Chance(1, 2) {
+		w.opRefresh(sibs[r.Intn(len(sibs))])
+	}
+	// a pod may already be there before the shrink
+	addPod := func() {
+		q := sibs[r.Intn(len(sibs))]
+		pd := &c01Pod{id: w.nextP}
+		w.nextP++
+		w.pods[pd.id] = pd
+		pv := w.newPV(pd.id)
+		if r.Chance(2, 3) { // small: stays below the declared min, so the floor decides the request
+			for k := 0; k < 2; k++ {
+				pv.req[k] = w.genVal(k, 2)
+			}
+			pv.obj = c01MkPod(pv)
+		}
+		w.opPodAdd(q, pd, pv)
+	}
+	if r.Chance(1, 3) {
+		addPod()
+	}
+	w.totalTo(int64(r.Range(0, 7)), 8, r.Range(1, 3)) // below the summed min in cpu, memory or both
+	for _, n := range sibs {
+		if r.Chance(5, 6) {
+			w.opRefresh(n)
+		}
+	}
+	for i, n := 0, r.Range(1, 3); i < n; i++ {
+		addPod()
+	}
+}
+
+// scaleNudge: one more total change around the siblings' summed min or a RefreshRuntime (scale cases, in between the
+// random operations).
+func (w *c01World) scaleNudge() {
+	r := w.r
+	qids := w.quotaIDs()
+	if len(qids) == 0 {
+		return
+	}
+	if r.Chance(1, 3) {
+		w.totalTo(int64(r.Range(0, 12)), 8, r.Range(1, 3))
+		return
+	}
+	w.opRefresh(qids[r.Intn(len(qids))])
+}
+
 // ---------- concurrent batches (the *schedules* quantifier) ----------
 
 // c01RunConc runs every script in its own goroutine against the one shared manager.  The goroutines are released
@@ -1145,6 +1312,13 @@ func TestVerifC01(t *testing.T) {
 		w.gate = r.Chance(1, 3)
 		restore := utilfeature.SetFeatureGateDuringTest(t, k8sfeature.DefaultFeatureGate, features.ElasticQuotaImmediateIgnoreTerminatingPod, w.gate)
 		w.gqm = NewGroupQuotaManager("tree1", false, nil, nil)
+		// every 5th case (chosen by idx, so the other cases are what they were): min-quota scaling on, as in the plugin's default
+		w.scale = idx%5 == 2
+		if w.scale {
+			w.gqm.setScaleMinQuotaEnabled(true)
+			h.Op("scale 1")
+			h.Tag("scale:case")
+		}
 		w.total = [2]int64{int64(r.Range(0, 64)) * 1000, int64(r.Range(0, 256)) << 30}
 		w.gqm.UpdateClusterTotalResource(c01RL(w.total))
 		h.Tag(fmt.Sprintf("strict:%v", w.strict))
@@ -1172,8 +1346,14 @@ func TestVerifC01(t *testing.T) {
 				batchAt[r.Range(2, nops-1)] = true
 			}
 		}
+		if w.scale {
+			w.scaleScenario()
+		}
 		for i := 0; i < nops; i++ {
 			w.step(maxQ, maxP)
+			if w.scale && r.Chance(1, 5) {
+				w.scaleNudge()
+			}
 			if i == mid {
 				w.freshCompare(c01Observe(w.gqm))
 			}
@@ -1197,6 +1377,9 @@ func TestVerifC01(t *testing.T) {
 		"K=2..6 distinct pods (new or existing, 2/3 on the deepest quota), per pod a script of 1-4 OnPodAdd / OnPodUpdate (resize, flip, bind, completion, terminating, quota move) / " +
 		"OnPodDelete / ReservePod / UnreservePod calls drawn beforehand, run by K goroutines released together (2/3 of the batches: also the i-th calls of all scripts released together) against the shared manager; one observation at quiescence, " +
 		"compared with the model's canonical sequential order (script of pod 1, pod 2, ...) and checked by the oracle and (every other batch) the fresh manager (fingerprint suffix @conc); <=16 pods there; " +
+		"every 5th case (index%5 == 2) runs with min-quota scaling ON (setScaleMinQuotaEnabled before any quota exists, the plugin's default; the fresh manager likewise): it starts with 2-3 siblings with min > 0 " +
+		"(3/4 non-lending, below the root or a fresh parent group), a cluster total first above then (one node gone) below their summed min in cpu / memory / both, RefreshRuntime of the siblings (AutoScaleMin scaled down) " +
+		"and 1-3 pod adds there (2/3 small: below the declared min), and gets a further total change around the summed min or a RefreshRuntime after every 5th random operation; " +
 		"non-trivial = some quota's request exceeded its max at some point (limiting active)")
 }
 
@@ -1224,10 +1407,11 @@ const (
 	c01xReset            // ResetQuota
 	c01xNpFlip           // OnPodUpdate same quota, non-preemptible label flipped (pod)
 	c01xComplete         // OnPodUpdate same quota, phase Succeeded             (pod)
+	c01xSqueeze          // cluster total large<->small (below the leaves' summed min), then RefreshRuntime of every existing leaf
 )
 
 var c01xKindName = []string{"add-pending", "add-node", "resize", "bind", "move", "pod-delete", "reserve", "unreserve", "migrate",
-	"A-max", "A-min", "reparent-B", "lend-flip", "quota-delete", "quota-recreate", "reset", "np-flip", "complete"}
+	"A-max", "A-min", "reparent-B", "lend-flip", "quota-delete", "quota-recreate", "reset", "np-flip", "complete", "squeeze"}
 
 type c01xOp struct{ kind, pod, q int }
 
@@ -1301,7 +1485,7 @@ func (a c01xAbs) applicable() []c01xOp {
 			out = append(out, c01xOp{c01xDelQ, 0, q})
 		}
 	}
-	return append(out, c01xOp{c01xReset, 0, 0})
+	return append(out, c01xOp{c01xReset, 0, 0}, c01xOp{c01xSqueeze, 0, 0})
 }
 
 func (a c01xAbs) apply(op c01xOp) c01xAbs {
@@ -1376,6 +1560,10 @@ func TestVerifC01Exhaustive(t *testing.T) {
 		w := &c01World{h: h, r: r, specs: map[int]*c01Spec{}, pods: map[int]*c01Pod{}, nextQ: 5, nextP: 3, strict: true, modelStrict: true}
 		h.Op("mode 1")
 		w.gqm = NewGroupQuotaManager("tree1", false, nil, nil)
+		// min-quota scaling on (the plugin's default): the squeeze operation makes RefreshRuntime lower AutoScaleMin
+		w.scale = true
+		w.gqm.setScaleMinQuotaEnabled(true)
+		h.Op("scale 1")
 		w.total = [2]int64{16000, 16384 * mi}
 		w.gqm.UpdateClusterTotalResource(c01RL(w.total))
 		for _, n := range []int{2, 3, 4} {
@@ -1458,6 +1646,18 @@ func TestVerifC01Exhaustive(t *testing.T) {
 				h.Op("reset")
 				h.Tag("op:reset")
 				w.after(h.Guard(func() { w.gqm.ResetQuota() }))
+			case c01xSqueeze:
+				low, high := [2]int64{1000, 1024 * mi}, [2]int64{16000, 16384 * mi}
+				to := low
+				if w.total == low {
+					to = high
+				}
+				w.opTotal([2]int64{to[0] - w.total[0], to[1] - w.total[1]})
+				for _, q := range []int{3, 4} {
+					if w.specs[q] != nil {
+						w.opRefresh(q)
+					}
+				}
 			}
 			abs = abs.apply(op)
 			// the enumeration's own prediction of the assignment flags (it only prunes no-op reserves/unreserves)
@@ -1498,7 +1698,7 @@ func TestVerifC01Exhaustive(t *testing.T) {
 		variant, depth, nonLend, map[bool]int{true: 1, false: 2}[np[0]], idx)
 	h.Extra("exhaustive", desc)
 	h.Close("exhaustive small scope, " + desc + "; alphabet per pod: add pending / add with NodeName to A or B, resize small<->big, non-preemptible flip, completion (Succeeded), bind, move A<->B, delete, reserve (unassigned pod), " +
-		"unreserve (reserved unbound pod), migrate A<->B; quotas: A max small<->large, A min >0<->0, re-parent B P<->root, lend flag of the non-lending leaf (reset path), delete a leaf without live pods, " +
+		"unreserve (reserved unbound pod), migrate A<->B; squeeze (min-quota scaling is on: cluster total 16 cpu <-> 1 cpu, below the leaves' summed min, then RefreshRuntime of every existing leaf, which scales AutoScaleMin down / back); quotas: A max small<->large, A min >0<->0, re-parent B P<->root, lend flag of the non-lending leaf (reset path), delete a leaf without live pods, " +
 		"re-create a deleted leaf (original spec), ResetQuota. Pruned as inapplicable / outside the informer-consistent fragment: ops on a pod not yet added or already deleted (a pod name is never re-used), " +
 		"adds / moves / migrations to a deleted leaf, deleting a leaf that still has a live pod (webhook), ReservePod of an assigned pod and UnreservePod of an unassigned or bound pod (no-ops resp. not issued by the scheduler), " +
 		"pods are only added to the leaves (not to P). non-trivial = some quota's request exceeded its max (limiting active)")
